@@ -18,7 +18,7 @@ from pyPRISM.core.Diameter import Diameter
 
 PID = 'C15'
 RULE = ('cases = assignment histories (<= 10 quick / <= 20 thorough steps) on one Density and one Diameter object over 1-4 types: '
-        'single-type and list assignments in arbitrary order with re-assignment (sweeps), values log-uniform 1e-4..1e2; '
+        'single-type and list assignments in arbitrary order with re-assignment (sweeps), values log-uniform 1e-4..1e2 plus near-equal re-assignments (relative change 1e-12..1e-6) and dilute values 1e-10..1e-8; type labels incl. substring-related strings and integers; '
         'non-trivial = history re-assigns at least one already assigned type; distinct = distinct (types, step list) digests')
 ASSUMPTIONS = ['entries involving an unassigned type must still hold their initial value',
                'relative tolerance 1e-13 (the derived values are single products/sums)']
@@ -27,7 +27,8 @@ MINIMA = {'quick': {'density.step': 2000, 'diameter.step': 2000, 'icontract.dens
 SHARDS = {'quick': 4, 'thorough': 16}
 TIME_BUDGET = {'quick': 40, 'thorough': 240}
 
-TYPESETS = [['A'], ['A', 'B'], ['A', 'B', 'C'], ['A', 'B', 'C', 'D'], ['polymer', 'solvent'], ['C', 'A', 'B'], ['B', 'A']]
+TYPESETS = [['A'], ['A', 'B'], ['A', 'B', 'C'], ['A', 'B', 'C', 'D'], ['polymer', 'solvent'], ['C', 'A', 'B'], ['B', 'A'],
+            ['C', 'CH2', 'CH3'], ['CH2', 'C'], ['A2', 'A', 'A10'], ['poly', 'polymer'], [1, 2, 3], ['A', 1]]
 RTOL = 1e-13
 _S = {'ctx': None}
 
@@ -110,6 +111,11 @@ def gen_steps(rng, types, nsteps):
         val = float(10 ** rng.uniform(-4, 2))
         if rng.random() < 0.3:
             val = float(rng.choice([0.1, 0.5, 1.0, 1.2, 0.05]))
+        elif steps and rng.random() < 0.25:
+            # a fine sweep / bisection step: almost, but not exactly, the previous value
+            val = float(steps[-1][1] * (1 + float(rng.choice([1e-6, -1e-7, 1e-9, 3e-12]))))
+        elif rng.random() < 0.1:
+            val = float(10 ** rng.uniform(-10, -8))           # dilute species
         if rng.random() < 0.6:
             steps.append([[int(rng.integers(0, n))], val, 'single'])
         else:
